@@ -207,6 +207,28 @@ def run(ctx):
             "a statement whose name is import / from / include is treated as a keyword statement even when it is followed by '=' or ':': "
             "the macro definition `include = 'x'` (or a block named so) is no longer read as a binding", ps.loc(), instance='dispatch-order')
 
+  # import grammar: `import M [as N]` / `from M import N [as N]` - M a dotted path, every N one plain identifier
+  pi_ = ctx.func(CP + '._parse_import')
+  g_pi, f_pi = std_facts(prog, pi_)
+  ident = CP + '._parse_identifier'
+  sel = CP + '._parse_selector'
+  names_ok, why_i = True, ''
+  n_sites = 0
+  for n_ in g_pi.live_nodes():
+    for cc in calls_of_node(n_):
+      q_ = prog.resolve_call(pi_, cc)
+      if q_ not in (ident, sel):
+        continue
+      n_sites += 1
+      after_import = ('call', CP + '._expect') in f_pi[n_.id] or any(f_[0] == 'c' and "== 'import'" in f_[1] and "self._current_token" in f_[1] for f_ in f_pi[n_.id])
+      after_as = any(f_[0] == 'c' and f_[2] is True and f_[1].replace(' ', '') == "self._current_token.string=='as'" for f_ in f_pi[n_.id])
+      if (after_import or after_as) and q_ != ident:
+        names_ok = False
+        why_i = 'the name after `%s` is read by `%s`' % ('as' if after_as else 'import', u(cc.func))
+  ctx.expect_at_least('name-reading calls in the import parser', n_sites, 3)
+  ctx.check(names_ok, 'C03.kinds', construct(pi_), 'in an import statement the imported name and the alias are single identifiers',
+            'import grammar changed: %s -- a dotted name there (`from a import b.c`) is accepted instead of rejected' % why_i, pi_.loc(), instance='import-names')
+
   # ---- C03.queue
   init = c.methods.get('__init__')
   qinit = [n for n in walk_local(init.node) if isinstance(n, ast.Assign) and u(n.targets[0]) == 'self._statements_queue']
